@@ -10,7 +10,8 @@ from vlib import wire
 
 import re
 TOKEN_RE = re.compile(rb"T[A-Za-z0-9]+\.[A-Za-z0-9]+\.[a-z]+;")
-ACTIONS = ["deliver", "drop-reply", "delay-reply", "cut-reply", "rst-before", "rst-after", "stale-reply", "dup-reply", "alter-seq"]
+ACTIONS = ["deliver", "drop-reply", "delay-reply", "cut-reply", "rst-before", "rst-after", "stale-reply", "dup-reply", "alter-seq",
+           "fin-before", "fin-after", "cut-reply-fin"]       # (the fin variants end the connection in an orderly way: the client sees a clean end of stream)
 
 
 def _recv_exact(sock, n):
@@ -28,6 +29,18 @@ def read_message(sock):
     m = wire.parse_header(h)
     body = _recv_exact(sock, m.data_len + m.ann_len)
     return h + body, m
+
+
+def fin(sock):
+    """orderly end: the peer reads a clean end of stream"""
+    try:
+        sock.shutdown(socket.SHUT_RDWR)
+    except OSError:
+        pass
+    try:
+        sock.close()
+    except OSError:
+        pass
 
 
 def rst(sock):
@@ -136,6 +149,10 @@ class Relay:
                     self.applied.append((token, kind, None))
                     rst(c)
                     return
+                if kind == "fin-before":
+                    self.applied.append((token, kind, None))
+                    fin(c)
+                    return
                 u.sendall(req)
                 with self.lock:
                     self.forwarded[token] = self.forwarded.get(token, 0) + 1
@@ -145,7 +162,7 @@ class Relay:
                         time.sleep(0.01)
                         rst(c)
                         return
-                    continue
+                    continue        # (the fin variants after a oneway request: delivered like any other; nothing to cut)
                 try:
                     rep, ph = read_message(u)
                 except (EOFError, OSError, wire.WireError):
@@ -172,6 +189,14 @@ class Relay:
                         return
                     elif kind == "rst-after":
                         rst(c)
+                        return
+                    elif kind == "fin-after":
+                        fin(c)
+                        return
+                    elif kind == "cut-reply-fin":
+                        k = min(len(rep) - 1, max(0, int(act[1] * len(rep)) if isinstance(act[1], float) else act[1]))
+                        c.sendall(rep[:k])
+                        fin(c)
                         return
                     elif kind == "stale-reply":
                         if self.stored_replies:
